@@ -185,9 +185,14 @@ def build_world(scn: dict, loop: Optional[asyncio.AbstractEventLoop], transport:
 
     ents: Dict[str, Dict[str, Any]] = {}
     for s in sims:
-        n = len(s.get("entities", ["e0"]))
-        created = factories[s["sid"]].M.create(n)
-        ents[s["sid"]] = {e.eid: e for e in created}
+        em = s.get("ent_model", {})
+        all_e = s.get("entities", ["e0"])
+        ents[s["sid"]] = {}
+        for mname in ("M", "N"):
+            n = len([e for e in all_e if em.get(e, "M") == mname])
+            if n:
+                created = getattr(factories[s["sid"]], mname).create(n)
+                ents[s["sid"]].update({e.eid: e for e in created})
 
     results = []
     conn_list = list(scn.get("conns", []))
